@@ -10,6 +10,7 @@ use crate::rng::Rng;
 pub const ASCII_NAMES: &[&str] = &[
     "a", "A", "b", "B", "c", "ab", "AB", "aB", "ba", "abc", "ABD", "Foo", "foo",
     "FOO", "bar", "Baz", "z", "Z9", "_x", "x y", "a.b", "...", "data.bin",
+    "d", "e", "f", "g", "h", "k", "m", "p", "q", "t", "x", "y", "n", "r", "u", "w",
     "0123456789012345678901234567890",
 ];
 pub const UNI_NAMES: &[&str] = &[
@@ -47,6 +48,7 @@ pub struct Profile {
     pub bad_names: u64, // percent of created names that are invalid
     pub small_bias: bool, // keep sizes small (many streams)
     pub tree: bool,       // only operations expressible on the abstract tree; streams written whole
+    pub flat: bool,       // most objects are created directly under the root, from a larger name pool
     pub maxbufs: &'static [usize],
 }
 
@@ -69,6 +71,7 @@ pub fn profile(name: &str) -> Profile {
         bad_names: 4,
         small_bias: false,
         tree: false,
+        flat: false,
         maxbufs: &[1, 1024, 1500, 4096, 1 << 20],
     };
     match name {
@@ -166,6 +169,47 @@ pub fn profile(name: &str) -> Profile {
             tree: true,
             ..base
         },
+        "siblings" => Profile {
+            name: "siblings",
+            steps: (50, 110),
+            w_create_storage: 14,
+            w_create_stream: 26,
+            w_remove: 30,
+            w_remove_all: 0,
+            w_meta: 1,
+            w_query: 8,
+            w_handle_open: 0,
+            w_handle_io: 0,
+            w_cat: 4,
+            w_reopen: 1,
+            w_refuse: 1,
+            unicode: 15,
+            bad_names: 0,
+            tree: true,
+            flat: true,
+            small_bias: true,
+            ..base
+        },
+        "multisib" => Profile {
+            name: "multisib",
+            steps: (50, 100),
+            w_create_storage: 8,
+            w_create_stream: 22,
+            w_remove: 26,
+            w_remove_all: 0,
+            w_meta: 1,
+            w_query: 4,
+            w_handle_open: 14,
+            w_handle_io: 20,
+            w_cat: 5,
+            w_reopen: 0,
+            w_refuse: 0,
+            unicode: 5,
+            bad_names: 0,
+            small_bias: true,
+            flat: true,
+            ..base
+        },
         "treebig" => Profile {
             name: "treebig",
             steps: (60, 120),
@@ -217,7 +261,7 @@ fn flip_case(rng: &mut Rng, s: &str) -> String {
 impl Gen {
     pub fn new(seed: u64, prof: Profile) -> Gen {
         let mut rng = Rng::new(seed);
-        let n = 5 + rng.below(6) as usize;
+        let n = if prof.flat { 12 + rng.below(8) as usize } else { 5 + rng.below(6) as usize };
         let mut pool = Vec::new();
         for _ in 0..n {
             let s = if rng.below(100) < prof.unicode {
@@ -367,10 +411,14 @@ impl Gen {
                 }
             }
         } else if r < 84 {
-            let n = if self.rng.chance(1, 3) {
-                self.rng.below(len + 2)
-            } else {
-                self.size() as u64
+            let n = match self.rng.below(4) {
+                0 => self.rng.below(len + 2),
+                // exact multiples of the (mini) sector sizes at or below the current length
+                1 => {
+                    let unit = *self.rng.pick(&[64u64, 512, 4096]);
+                    (self.rng.below(len / unit + 2)) * unit
+                }
+                _ => self.size() as u64,
             };
             Op::HSetLen(h, n)
         } else if r < 90 {
@@ -415,7 +463,8 @@ impl Gen {
         let storage = |e: &Entry| e.is_storage();
         let stream = |e: &Entry| e.is_stream();
         if take!(p.w_create_storage) {
-            let parent = self.pick_entry(&es, storage).map(Self::path_of).unwrap_or("/".into());
+            let flat = p.flat && self.rng.chance(4, 5);
+            let parent = if flat { "/".to_string() } else { self.pick_entry(&es, storage).map(Self::path_of).unwrap_or("/".into()) };
             let nm = if self.rng.below(100) < p.bad_names {
                 rng_pick_str(&mut self.rng, BAD_NAMES)
             } else {
@@ -430,7 +479,8 @@ impl Gen {
             return Op::CreateStorage(path);
         }
         if take!(p.w_create_stream) {
-            let parent = self.pick_entry(&es, storage).map(Self::path_of).unwrap_or("/".into());
+            let flat = p.flat && self.rng.chance(4, 5);
+            let parent = if flat { "/".to_string() } else { self.pick_entry(&es, storage).map(Self::path_of).unwrap_or("/".into()) };
             let nm = if self.rng.below(100) < p.bad_names {
                 rng_pick_str(&mut self.rng, BAD_NAMES)
             } else {
